@@ -115,6 +115,34 @@ PROPS = {
         assumptions=["costs stay far from the i64 range (the model is over Z)",
                      "fill_sample: the hash map's iteration order is taken from the real output and validated"],
     ),
+    "C07": dict(
+        level_text="Coq theorems over the SegmentedCache model, for every reachable state (C01 invariant by induction over histories) and both capacities >= 1: a new key enters probationary and only probationary's least-recent entry can be evicted for it; get/get_mut/put on a probationary entry makes it the most-recent protected entry, and when protected is full its least-recent entry becomes the most-recent probationary entry with no key leaving the cache; a protected hit only moves the entry to the front of protected; put_protected leaves the key at the front of protected and in no other segment. Exact list equations, tied to /repo by differential execution on both segment lists.",
+        props_files=["C07"],
+        theorems={"C07": ["C07_reachable", "C07_new_key_enters_probationary", "C07_probationary_hit_promotes_get",
+                          "C07_probationary_hit_promotes_put", "C07_promotion_never_evicts",
+                          "C07_protected_hit_refreshes_get", "C07_protected_hit_refreshes_put",
+                          "C07_miss_changes_nothing", "C07_put_protected"]},
+        slices=dict(quick=[dict(name="slru", slice="slru", args=["--n", 6000, "--len", 150], shards=12)],
+                    thorough=[dict(name="slru", slice="slru", args=["--n", 120000, "--len", 400], shards=16)]),
+        corpus=["slru"],
+        monitors=["mon_c07", "mon_c01"],
+        assumptions=["put_protected of a new key into a full protected segment evicts protected's own least-recent entry "
+                     "(the method's documented force semantics); 'only the least-recent probationary entry is ever evicted' is read as about put"],
+    ),
+    "C08": dict(
+        level_text="Coq theorems over the TwoQueueCache model, for every reachable state (C01 invariant by induction over histories), every size >= 1, every recent quota (0 included) and ghost bound >= 1: a new key enters the recent queue; a second access by put/get/get_mut moves it to the front of the frequent queue; get never consults the ghosts; on a full cache the victim is recent's LRU when recent is over its quota (at quota for a brand-new key) and otherwise frequent's LRU, falling back to the non-empty queue, and it becomes the most-recent ghost; the ghost list drops and reports its own LRU on overflow (including the very key being revived); a put on a ghost key revives it directly into the frequent queue. Exact list equations, tied to /repo by differential execution over all three lists and boundary ratios.",
+        props_files=["C08"],
+        theorems={"C08": ["C08_reachable", "C08_first_access_recent", "C08_second_access_frequent_put",
+                          "C08_second_access_frequent_get", "C08_frequent_hit_put", "C08_frequent_hit_get",
+                          "C08_get_miss", "C08_new_key_full", "C08_ghost_revival_room", "C08_ghost_revival_full"]},
+        slices=dict(quick=[dict(name="twoq", slice="twoq", args=["--n", 6000, "--len", 150], shards=12)],
+                    thorough=[dict(name="twoq", slice="twoq", args=["--n", 120000, "--len", 400], shards=16)]),
+        corpus=["twoq"],
+        monitors=["mon_c08", "mon_c01"],
+        partial="the quota / ghost bound = floor(size x ratio) clause is checked by the correspondence run (the harness computes the "
+                "expected sub-sizes independently and the snapshot carries the real ones) but not yet proved over a float model",
+        assumptions=["quota and ghost capacity are read from the real cache through the verif-hooks accessor and compared with floor(size*ratio) computed by the harness"],
+    ),
     "C13": dict(
         level_text="Coq theorems: in the models of all five caches every read-only call (peek, peek_mut without write, contains, len, cap, is_empty, peek_lru/peek_mru variants, get_mru, non-writing iterator scripts, per-segment accessors, partition(), Debug) returns the identical state - every list order, value, ARC's p and the W-TinyLFU estimator - and inserting any list of such calls at any position of any history changes neither the final state nor any later result (generic insertion theorem). Tied to /repo by differential execution comparing the full snapshot (all lists, p, estimator bytes) after every call.",
         props_files=["C13"],
